@@ -172,6 +172,9 @@ fn plan(prop: &str, o: &mut Out) {
                 };
                 for t in TYPES {
                     o.put(&format!("cross-parse/{}", t), format!("parse_str {} {}", t, ops::hex(s.as_bytes())));
+                    // and through the streaming entry point: the text buffers differ per type (borrowed, array, vector)
+                    let cap = ops::text_cap(t).map_or("-".to_string(), |c| c.to_string());
+                    o.put(&format!("cross-parse-fmt/{}", t), format!("parse_fmt {} {} {} -", t, cap, ops::hex(s.as_bytes())));
                 }
             }
             g_specials(o);
@@ -308,7 +311,7 @@ fn main() {
         }
         Some("caps") => {
             for ty in TYPES {
-                println!("{} {}", ty, ops::text_cap(ty).map_or("-".to_string(), |c| c.to_string()));
+                println!("{} {} probed={}", ty, ops::text_cap(ty).map_or("-".to_string(), |c| c.to_string()), if ty.to_string() == "big" { "-".to_string() } else { ops::probe_text_cap(ty).map_or("none".to_string(), |c| c.to_string()) });
             }
         }
         Some("one") => {
